@@ -36,7 +36,7 @@ impl Defects {
 }
 
 fn plain_side(total: u32, read: u32, close: Close) -> Side {
-    Side { writes: if total > 0 { vec![total] } else { vec![] }, try_write: false, reads: vec![read], peek: 0, close, wait_first: false }
+    Side { writes: if total > 0 { vec![total] } else { vec![] }, try_write: false, reads: vec![read], peek: 0, close, wait_first: false, read_delay: 0, read_after_write: false }
 }
 
 fn base_cfg() -> Cfg {
@@ -278,6 +278,8 @@ fn gen_side(rng: &mut Rng, total: u32, wide: bool) -> Side {
         peek: if rng.chance(1, 4) { rng.range(1, 3) as u8 } else { 0 },
         close: *rng.pick(&[Close::Shutdown, Close::Shutdown, Close::DropHalf, Close::AfterEof]),
         wait_first: false,
+        read_delay: 0,
+        read_after_write: false,
     }
 }
 
